@@ -35,7 +35,7 @@ class LinkPair:
             r.channel = c.get("ch", 76)
             r.data_rate = c.get("rate", 1)
             if not lite:
-                r.crc = c.get("crc", 2)
+                r.crc = 2 if (tx_lite or rx_lite) else c.get("crc", 2)   # rf24_lite is fixed to 2-byte CRC
             r.address_length = aw
             r.dynamic_payloads = bool(c.get("dyn", True))
             if not c.get("dyn", True):
